@@ -33,6 +33,9 @@ CHECKS = {
     "C11": C("c11", dict(checks=6000, shards=2, timeout=300), dict(checks=60000, shards=16, timeout=3000),
              "property-based testing (rapid): round-trip (decode(encode(v)) == v and bytes read == bytes written) for every compact record codec, with generated primary namespaces and dirty decode targets",
              "Trusted: the normal-form comparison in harness/c11 (lists that Marshal sorts are compared sorted; nil and empty lists are equal). Values are within each codec's representable range (roles < 2^61, member types 0-3, namespaces < 8192, no reference with type+namespace 0)."),
+    "C31": C("c31", dict(checks=4000, shards=2, timeout=300), dict(checks=40000, shards=16, timeout=3000),
+             "property-based testing (rapid): round trips of generated feature IDs through every encoding, and order laws on generated triples with a differential against the compact index order",
+             "Trusted: encoders/decoders of encoding/json, gopkg.in/yaml.v2 and protobuf. IDs in the postcode and ONS alias namespaces are restricted to values the packers produce (other values have no alias form). Namespaces exclude control characters."),
     "C39": C("c39", dict(checks=5000, shards=2, timeout=300), dict(checks=100000, shards=16, timeout=1800),
              "property-based testing (rapid): generated operation sequences on b6.Tags compared step by step with an ordered-list reference model; shrunk failing case saved as JSON replay",
              "Trusted: the ordered-list model in harness/c39; keys are distinct and non-empty as the property states; values are string expressions."),
